@@ -170,7 +170,7 @@ struct GenScript {
 }
 
 fn gen_script(rng: &mut Rng, id: String) -> GenScript {
-    let sleep = *rng.pick(&[0u64, 0, 137, 333]);
+    let mut sleep = *rng.pick(&[0u64, 0, 137, 333]);
     let body = rng.rbytes(200);
     // well-formed requests with hostile header values: a `timeout` that does not parse as u64 counts as
     // absent, an astronomically large one never fires - neither may disturb the serving side
@@ -252,6 +252,11 @@ fn gen_script(rng: &mut Rng, id: String) -> GenScript {
                     }
                     if !same_id(&m) {
                         m = rng.rbytes(100);
+                    }
+                    // if the mutation still decodes as a request, the handler sleeps for what THAT request says
+                    // (a mutated `x-sleep-ms` name or value changes it)
+                    if let wire::Dec::Req(r) = wire::dec_req(None, &m).2 {
+                        sleep = r.headers().get("x-sleep-ms").and_then(|v| v.parse::<u64>().ok()).unwrap_or(0);
                     }
                     m
                 }
@@ -541,7 +546,7 @@ pub fn run_c06(run: &mut Run) -> anyhow::Result<()> {
     set_mark_path(run.work.join("current_op.txt"));
     let mut rng = Rng::new(run.seed);
     // (i) byte level: the decoders on hostile byte strings (same stream as C07, smaller here)
-    let n_bytes = if run.quick() { 20_000 } else { 1_000_000 };
+    let n_bytes = if run.quick() { 20_000 } else { 300_000 };
     for _ in 0..n_bytes {
         let m = wire::gen_msg(&mut rng, 256);
         let (_, _, b) = if rng.chance(1, 2) { wire::enc_req(None, &m) } else { wire::enc_resp(None, &m) };
@@ -560,11 +565,11 @@ pub fn run_c06(run: &mut Run) -> anyhow::Result<()> {
         run.op(op, out, true);
     }
     // (ii) hostile sessions
-    let nsess = if run.quick() { 16 } else { 500 };
+    let nsess = if run.quick() { 16 } else { 120 };
     for i in 0..nsess {
         session(run, &mut rng, i as u64, 8)?;
     }
-    for i in 0..(if run.quick() { 2 } else { 30 }) {
+    for i in 0..(if run.quick() { 2 } else { 10 }) {
         typed_hostile(run, i)?;
     }
     Ok(())
@@ -578,12 +583,12 @@ pub fn run_c02(run: &mut Run) -> anyhow::Result<()> {
     set_mark_path(run.work.join("current_op.txt"));
     let mut rng = Rng::new(run.seed);
     // (a) event-level scripts (at-most-once, chunking, truncation)
-    let nsess = if run.quick() { 8 } else { 300 };
+    let nsess = if run.quick() { 8 } else { 80 };
     for i in 0..nsess {
         session(run, &mut rng, 1000 + i as u64, 10)?;
     }
     // (b) honest concurrent RPCs in both directions over lossy / duplicating / reordering networks
-    let nscen = if run.quick() { 60 } else { 3000 };
+    let nscen = if run.quick() { 60 } else { 900 };
     for sc in 0..nscen {
         concurrent_scenario(run, &mut rng, sc as u64)?;
     }
@@ -813,12 +818,12 @@ pub fn run_c12(run: &mut Run) -> anyhow::Result<()> {
     set_mark_path(run.work.join("current_op.txt"));
     let mut rng = Rng::new(run.seed);
     // (a) event-level scripts (shared machinery): abandon at every phase
-    let nsess = if run.quick() { 8 } else { 300 };
+    let nsess = if run.quick() { 8 } else { 80 };
     for i in 0..nsess {
         session(run, &mut rng, 2000 + i as u64, 10)?;
     }
     // (b) long abandon histories against small stream limits
-    let nhist = if run.quick() { 10 } else { 300 };
+    let nhist = if run.quick() { 10 } else { 120 };
     for hidx in 0..nhist {
         abandon_history(run, &mut rng, hidx as u64)?;
     }
